@@ -349,7 +349,11 @@ def k_decode(req):
 # ---------------------------------------------------------------- printf
 
 
-FMT_RE = re.compile(r"^%([-0+ #]*)(\d*)(?:\.(\d+))?(ll|l)?([a-zA-Z])$")
+# C99 7.19.6.1: zero or more flags (in any order), an optional minimum field width (a decimal integer
+# which cannot start with 0: "0 is taken as a flag, not as the beginning of a field width"), an optional
+# precision (a period followed by an optional decimal integer; "if only the period is specified, the
+# precision is taken as zero"), an optional length modifier, the conversion specifier.
+FMT_RE = re.compile(r"^%([-0+ #]*)(\d*)(?:\.(\d*))?(ll|l)?([a-zA-Z])$")
 
 
 def c_int(flags, width, prec, verb, v):
@@ -424,8 +428,10 @@ def k_fmt(req):
         return ["u"] * len(req["vals"])
     flags, width, prec, lmod, verb = m.groups()
     width = int(width) if width else None
-    prec = int(prec) if prec is not None else None
+    prec = (int(prec) if prec else 0) if prec is not None else None
     fset = set(flags)
+    # the result is a function of the flag SET: order and repetition do not matter
+    flags = "".join(ch for ch in "-0+ #" if ch in fset)
     for kind, val in req["vals"]:
         w = "u"
         try:
@@ -450,8 +456,8 @@ def k_fmt(req):
                         ok = False  # C prints the sign alone, Go's fmt (to which the Miller docs defer) prints nothing
                     if "#" in fset and "0" in fset and verb in "xX":
                         ok = False  # C counts the 0x prefix in the width, Go's fmt pads the digits to the width first
-                    if lmod and verb in "Xob":
-                        ok = False  # only lld/ld/llx/lx are named by the docs
+                    # l / ll: "Miller integers are long long so you must use formats which apply to long
+                    # long, e.g. with ll in them" (format-values usage): every integer conversion takes them
                     if ok:
                         w = S(c_int(fset, width, prec, verb, v))
                 else:
